@@ -1,0 +1,193 @@
+//go:build verif
+
+// Contracts for govc (/verif): C14 "Aggregate transaction signatures are sound and bound to their signer set"
+// (structural layer: index/range/nil safety and the error conditions; the group arithmetic is not interpreted).
+// collectAggregateSigners / aggregatePublicKey are shared with C13 and C09 (CoSi verification uses them).
+// Comment-only file.
+
+package crypto
+
+//@ -- the signer list is non-empty, strictly increasing, inside the key vector, and selects non-nil keys
+//@ spec SignersOK(publics []*Key, signers []int) bool = len(signers) > 0 &&
+//@     (forall i int :: 0 <= i && i < len(signers) ==> 0 <= signers[i] && signers[i] < len(publics) && publics[signers[i]] != nil) &&
+//@     (forall i int :: 0 < i && i < len(signers) ==> signers[i-1] < signers[i])
+
+//@ -- explicit frame facts about the caller-owned signer list and key vector (redundant with the verified `modifies nothing`
+//@ -- frames below; kept because they are cheap and robust for callers)
+//@ spec SameInts(s []int) bool = forall i int :: 0 <= i && i < len(s) ==> s[i] == old(s[i])
+//@ spec SameKeys(p []*Key) bool = forall i int :: 0 <= i && i < len(p) ==> p[i] == old(p[i])
+
+//@ -- decodePoint: verified in zz_contracts_c32_verif.go; (*Key).VerifyWithChallenge: assumed in zz_contracts_c13_verif.go; (*Key).Verify: zz_contracts_c30_verif.go
+
+// ───────────── group operations as uninterpreted functions of opaque point values (T-GROUP) ─────────────
+
+//@ -- PIdentity / PAdd / PMul(c, p) = c*p / PBase(c) = c*B: the edwards25519 operations (trusted/c12.spec says which method
+//@ -- applies which); PEnc(p): seq code of the 32-byte encoding; PDecode(s): the point decodePoint returns for the byte string s.
+//@ uninterp PIdentity() edwards25519.Point
+//@ uninterp PAdd(a edwards25519.Point, b edwards25519.Point) edwards25519.Point
+//@ uninterp PMul(c [32]byte, p edwards25519.Point) edwards25519.Point
+//@ uninterp PBase(c [32]byte) edwards25519.Point
+//@ -- (PEnc / PDecode are the C32 observers EncOf / PointOf of trusted/c32.spec: one vocabulary for encodings)
+//@ spec PEnc(p edwards25519.Point) mathint = EncOf(p)
+//@ spec PDecode(s mathint) edwards25519.Point = PointOf(s)
+
+//@ -- TranscriptOf(publics, signers): the byte string collectAggregateSigners returns as transcript (be32(count) followed by
+//@ -- be32(index) || key for every signer). ASSUMED to be a function of the signer list and the selected keys (true: nothing
+//@ -- else is read); its LENGTH is verified, its content is not (binary.BigEndian.AppendUint32's contract does not specify
+//@ -- the appended bytes).
+//@ uninterp TranscriptOf(publics []*Key, signers []int) mathint reads byte, publics[..], signers[..]
+
+//@ -- WSum(tr, publics, signers, n): the weighted sum over the first n signers,
+//@ --    sum_{k<n} CoeffOf(tr, signers[k], key_k) * decode(key_k),   key_k = *publics[signers[k]]
+//@ -- i.e. the MuSig-style aggregate key for transcript tr; WKeyOf: its encoding for the transcript of (publics, signers).
+//@ rec WSum(tr mathint, publics []*Key, signers []int, n int) edwards25519.Point = n <= 0 ? PIdentity() :
+//@     PAdd(WSum(tr, publics, signers, n - 1),
+//@          PMul(CoeffOf(tr, signers[n - 1], seq(*publics[signers[n - 1]])), PDecode(seq(*publics[signers[n - 1]]))))
+//@ spec WKeyOf(publics []*Key, signers []int) mathint = PEnc(WSum(TranscriptOf(publics, signers), publics, signers, len(signers)))
+
+//@ -- (C13 and C09 use this function through its contract; it is verified once, in the C14 check)
+//@ func collectAggregateSigners
+//@   property C14
+//@   modifies nothing
+//@   ensures [ok] err == nil ==> SignersOK(publics, signers) && len(result0) == len(signers) && len(result1) == 4 + 36 * len(signers) &&
+//@       (forall i int :: 0 <= i && i < len(signers) ==> result0[i].index == signers[i] && result0[i].public == publics[signers[i]] && result0[i].point != nil)
+//@   ensures [points] err == nil ==> (forall i int :: 0 <= i && i < len(signers) ==> allocated(result0[i].point) &&
+//@       old(DecodableSeq(seq(*publics[signers[i]]))) && *result0[i].point == old(PDecode(seq(*publics[signers[i]]))))
+//@   assumes err == nil ==> seq(result1) == old(TranscriptOf(publics, signers))
+//@   ensures [fail] err != nil ==> isnil(result0) && isnil(result1)
+//@   ensures [frame] SameInts(signers) && SameKeys(publics)
+//@   loop 0 invariant fresh(selected) && fresh(transcript)
+//@   loop 0 invariant len(selected) == rangeindex + 1 && len(transcript) == 4 + 36 * (rangeindex + 1) && 0 - 1 <= prev
+//@   loop 0 invariant rangeindex >= 0 ==> prev == signers[rangeindex]
+//@   loop 0 invariant rangeindex < 0 ==> prev == 0 - 1
+//@   loop 0 invariant forall i int :: 0 <= i && i <= rangeindex ==> 0 <= signers[i] && signers[i] < len(publics) && publics[signers[i]] != nil
+//@   loop 0 invariant forall i int :: 0 < i && i <= rangeindex ==> signers[i-1] < signers[i]
+//@   loop 0 invariant forall i int :: 0 <= i && i <= rangeindex ==> selected[i].index == signers[i] && selected[i].public == publics[signers[i]] && selected[i].point != nil
+//@   loop 0 invariant [points] forall i int :: 0 <= i && i <= rangeindex ==> allocated(selected[i].point) &&
+//@       old(DecodableSeq(seq(*publics[signers[i]]))) && *selected[i].point == old(PDecode(seq(*publics[signers[i]])))
+//@   uses entryclosure, blockframe
+
+// ───────────── hashes as uninterpreted functions of the hashed byte string (T-HASH) ─────────────
+
+//@ -- EmptyHash(): seq code of the empty hash input; Sha512Seq(input): seq code of the 64-byte sha512 digest of the input;
+//@ -- WideReduce(d): 32-byte encoding of the 64-byte string d reduced mod l (Scalar.SetUniformBytes). See trusted/c12.spec.
+//@ uninterp EmptyHash() mathint
+//@ uninterp Sha512Seq(input mathint) mathint
+//@ uninterp WideReduce(digest mathint) [32]byte
+//@ -- U32Seq(v): the seq code of the 4 big-endian bytes of v. The axiom says that a 4-byte string is determined by its
+//@ -- big-endian value (seq is a function of the content): no div/mod, no array extensionality is needed to use it with
+//@ -- binary.BigEndian.PutUint32's contract b[0]*2^24 + b[1]*2^16 + b[2]*2^8 + b[3] == v.
+//@ uninterp U32Seq(v mathint) mathint
+//@ axiom forall a [4]byte :: { seq(a) } seq(a) == U32Seq(a[0] * 16777216 + a[1] * 65536 + a[2] * 256 + a[3])
+
+//@ -- the rogue-key coefficient of one signer: H(domain || transcript || be32(index) || key) reduced mod l. This is what
+//@ -- binds every signer's weight to the WHOLE transcript (count, all indexes, all keys), its own index and its own key.
+//@ spec CoeffOf(tr mathint, index int, pub mathint) [32]byte =
+//@     WideReduce(Sha512Seq(cat(cat(cat(cat(EmptyHash(), strseq(aggregateCoefficientDomain)), tr), U32Seq(index % 4294967296)), pub)))
+
+//@ func aggregateCoefficient
+//@   property C14
+//@   modifies nothing
+//@   requires signer.public != nil
+//@   ensures [total] err == nil && result0 != nil && fresh(result0)
+//@   ensures [value] ScBytes(*result0) == old(CoeffOf(seq(transcript), signer.index, seq(*signer.public)))
+
+//@ -- the Schnorr challenge of the aggregate signature: H(R || A || message) reduced mod l
+//@ spec AggChalOf(r mathint, a mathint, m mathint) [32]byte = WideReduce(Sha512Seq(cat(cat(cat(EmptyHash(), r), a), m)))
+
+//@ func aggregateChallenge
+//@   property C14
+//@   modifies nothing
+//@   ensures [total] err == nil && result0 != nil && fresh(result0)
+//@   ensures [value] ScBytes(*result0) == old(AggChalOf(seq(commitment), seq(public), seq(message)))
+
+//@ func aggregatePublicKey
+//@   property C09, C14
+//@   modifies nothing
+//@   ensures [ok] err == nil ==> result0 != nil && fresh(result0) && SignersOK(publics, signers)
+//@   ensures [fail] err != nil ==> result0 == nil
+//@   ensures [frame] SameInts(signers) && SameKeys(publics)
+//@   loop 0 invariant P != nil && fresh(P) && (forall i int :: 0 <= i && i < len(selected) ==> selected[i].point != nil)
+
+//@ func aggregateWeightedPublicKey
+//@   property C14
+//@   modifies nothing
+//@   ensures [ok] err == nil ==> SignersOK(publics, signers) && len(result1) == len(signers) &&
+//@       (forall i int :: 0 <= i && i < len(result1) ==> result1[i] != nil)
+//@ -- the returned key is the encoding of the weighted sum for the returned transcript: every signer's point is weighted with
+//@ -- the hash of (whole transcript, its index, its key); coefficient k is exactly that hash
+//@   ensures [value] err == nil ==> (let tr == seq(result2) in seq(result0) == old(PEnc(WSum(tr, publics, signers, len(signers)))))
+//@   ensures [coeffs] err == nil ==> (let tr == seq(result2) in forall k int :: 0 <= k && k < len(signers) ==>
+//@       ScBytes(*result1[k]) == old(CoeffOf(tr, signers[k], seq(*publics[signers[k]]))))
+//@   ensures [transcript] err == nil ==> seq(result2) == old(TranscriptOf(publics, signers)) && len(result2) == 4 + 36 * len(signers)
+//@   ensures [fail] err != nil ==> isnil(result1) && isnil(result2)
+//@   ensures [frame] SameInts(signers) && SameKeys(publics)
+//@   loop 0 invariant fresh(P) && fresh(coefficients)
+//@   loop 0 invariant P != nil && len(coefficients) == rangeindex + 1 && (forall i int :: 0 <= i && i < len(coefficients) ==> coefficients[i] != nil)
+//@   loop 0 invariant forall i int :: 0 <= i && i < len(selected) ==> selected[i].point != nil && selected[i].public != nil
+//@   loop 0 invariant [sel] len(selected) == len(signers) && (forall i int :: 0 <= i && i < len(signers) ==> selected[i].index == signers[i] &&
+//@       selected[i].public == publics[signers[i]] && *selected[i].point == PDecode(seq(*publics[signers[i]])) && selected[i].point != P &&
+//@       allocated(selected[i].point))
+//@ -- aggregateCoefficient never fails (SetUniformBytes on 64 bytes): its error return is dead code
+//@   unreachable return@6
+//@   loop 0 invariant [sum] *P == WSum(seq(transcript), publics, signers, rangeindex + 1)
+//@   loop 0 invariant [coeffs] forall k int :: 0 <= k && k <= rangeindex ==>
+//@       ScBytes(*coefficients[k]) == CoeffOf(seq(transcript), signers[k], seq(*publics[signers[k]]))
+
+//@ func AggregateSign
+//@   property C14
+//@   modifies nothing
+//@   ensures [ok] err == nil ==> result0 != nil && len(privKeys) == len(signers) && len(seed) >= 32 && SignersOK(publics, signers) &&
+//@       (forall i int :: 0 <= i && i < len(signers) ==> signers[i] <= 65535 && privKeys[i] != nil)
+//@ -- every private key is a canonical scalar whose public key IS the key vector entry of its signer (a signature can only be
+//@ -- produced by holders of ALL the selected keys; PublicOf / CanonicalScalar: zz_contracts_c30_verif.go)
+//@   ensures [keys-match] err == nil ==> (forall i int :: 0 <= i && i < len(signers) ==>
+//@       old(CanonicalScalar(seq(*privKeys[i])) && PublicOf(seq(*privKeys[i])) == seq(*publics[signers[i]])))
+//@   ensures [fail] err != nil ==> result0 == nil
+//@   loop 0 invariant [match] forall i int :: 0 <= i && i <= rangeindex ==>
+//@       old(CanonicalScalar(seq(*privKeys[i])) && PublicOf(seq(*privKeys[i])) == seq(*publics[signers[i]]))
+//@   uses entryclosure, blockframe
+//@   loop 0 invariant fresh(P) && fresh(randoms) && fresh(privateScalars)
+//@   loop 0 invariant P != nil && len(randoms) == rangeindex + 1 && len(privateScalars) == rangeindex + 1
+//@   loop 0 invariant [keys] forall i int :: 0 <= i && i <= rangeindex ==> signers[i] <= 65535 && privKeys[i] != nil
+//@   loop 0 invariant [randoms] forall i int :: 0 <= i && i <= rangeindex ==> randoms[i] != nil
+//@   loop 0 invariant [privs] forall i int :: 0 <= i && i <= rangeindex ==> privateScalars[i] != nil
+//@   loop 0 invariant [coeffs] len(coefficients) == len(signers) && (forall i int :: 0 <= i && i < len(coefficients) ==> coefficients[i] != nil)
+//@   loop 0 invariant [caps] cap(randoms) >= len(signers) && cap(privateScalars) >= len(signers)
+//@   loop 0 invariant [disjoint] arr(randoms) != arr(coefficients) && arr(privateScalars) != arr(coefficients) && arr(randoms) != arr(privateScalars)
+//@   loop 1 invariant S != nil && fresh(S)
+//@ -- SetUniformBytes cannot fail on the 64-byte nonce digest, aggregateChallenge never fails: their error returns are dead code
+//@   unreachable return@18 return@20
+
+//@ -- NOT covered (algebraic / cryptographic layer): a produced signature verifies (completeness), the weighted key is a function of
+//@ -- the transcript (binding to count, indexes and keys), and unforgeability for a larger signer set. In AggregateSign the check
+//@ -- `private.Public() == *publics[signer]` is not restated as a postcondition either: the loop writes byte buffers and govc
+//@ -- cannot keep byte-content facts about caller memory across the loop without a byte-level invariant about every key.
+//@ func AggregateVerify
+//@   property C14
+//@   modifies nothing
+//@   ensures [ok] result == nil ==> sig != nil && SignersOK(publics, signers)
+//@ -- the signature verified (T-CRYPTO predicate SigOK) over the message under the weighted aggregate key of EXACTLY this
+//@ -- key vector and signer list: sum_k H(domain || transcript || be32(index_k) || key_k) * decode(key_k)
+//@   ensures [sig] result == nil ==> SigOK(old(WKeyOf(publics, signers)), seq(message), old(seq(*sig)))
+//@ -- added for C02, ASSUMED (definitional): the pointwise reading of [sig] in the AggSigner vocabulary of zz_contracts_c05_verif.go — AggSigner(sig, msg, n,
+//@ -- pos, index, key) MEANS "some key vector / signer list with n signers whose entry pos is (index, key) satisfies SigOK(WKeyOf(..), msg, sig)"; the
+//@ -- witness is (publics, signers) itself. C02 needs this form because the key vector (allKeys of validateInputs) is local to the caller.
+//@   assumes [c02-transcript] result == nil ==> (forall i int :: 0 <= i && i < len(signers) ==>
+//@       AggSigner(old(seq(*sig)), seq(message), len(signers), i, signers[i], old(seq(*publics[signers[i]]))))
+//@ -- the local variable A is allocated (and zeroed) before aggregateWeightedPublicKey is called: the call-time heap differs
+//@ -- from the entry heap in that fresh cell only
+//@   uses readsframe
+
+// ───────────── completeness algebra (BOUNDED: at most 3 signers; exponent arithmetic, not the code) ─────────────
+
+//@ -- Sign-then-verify in the exponent (see CosiCompleteness3 in zz_contracts_c13_verif.go for the reading): signer i has
+//@ -- private exponent y_i, weight w_i, nonce z_i and contributes s_i = x*(w_i*y_i) + z_i - k_i*l; the aggregate key has
+//@ -- exponent a = sum w_i*y_i, the commitment r = sum z_i. S - (r + x*a) is a multiple of l for n = 1, 2, 3.
+//@ lemma AggregateCompleteness3(x, l, w1, w2, w3, y1, y2, y3, z1, z2, z3, s1, s2, s3, k1, k2, k3 mathint)
+//@   property C14
+//@   requires l > 0
+//@   requires s1 == x * (w1 * y1) + z1 - k1 * l && s2 == x * (w2 * y2) + z2 - k2 * l && s3 == x * (w3 * y3) + z3 - k3 * l
+//@   ensures [n1] s1 - (z1 + x * (w1 * y1)) == (0 - k1) * l
+//@   ensures [n2] (s1 + s2) - ((z1 + z2) + x * (w1 * y1 + w2 * y2)) == (0 - (k1 + k2)) * l
+//@   ensures [n3] (s1 + s2 + s3) - ((z1 + z2 + z3) + x * (w1 * y1 + w2 * y2 + w3 * y3)) == (0 - (k1 + k2 + k3)) * l
